@@ -515,6 +515,26 @@ func c03Run(c *fw.Ctx) {
 	// bundled example store holding three elements of every type: whatever a
 	// request leaves behind in the process must not cost a later one its reply
 	extraRepeat := [][]string{{"KEYS", "["}, {"KEYS", "[z-a]"}, {"KEYS", "\\"}, {"KEYS", "a[^"}, {"SCAN", "0", "MATCH", "["}, {"SCAN", "0", "MATCH", "[z-a]", "COUNT", "5"}, {"SCAN", "0", "MATCH", "*"}, {"KEYS", "*"}}
+	// numeric arguments at the edges of their domain against the populated store
+	// (keys s, h, l, st, z): an overflow in an index or LIMIT computation costs the
+	// request - and everything behind it - its reply
+	edge := []string{"0", "1", "-1", "2", "2147483648", "9223372036854775807", "-9223372036854775808"}
+	for _, a := range edge {
+		for _, b := range edge {
+			extraRepeat = append(extraRepeat,
+				[]string{"ZRANGEBYSCORE", "z", "-inf", "+inf", "LIMIT", a, b},
+				[]string{"ZRANGE", "z", "(0", "+inf", "BYSCORE", "LIMIT", a, b},
+				[]string{"ZRANGE", "z", "+inf", "-inf", "BYSCORE", "REV", "LIMIT", a, b, "WITHSCORES"},
+				[]string{"ZREVRANGEBYSCORE", "z", "+inf", "-inf", "LIMIT", a, b},
+				[]string{"ZRANGE", "z", a, b},
+				[]string{"ZREVRANGE", "z", a, b},
+				[]string{"LRANGE", "l", a, b},
+				[]string{"GETRANGE", "s", a, b},
+			)
+		}
+		extraRepeat = append(extraRepeat, []string{"LPOP", "l", a}, []string{"RPOP", "l", a}, []string{"LINDEX", "l", a}, []string{"SCAN", a}, []string{"SCAN", "0", "COUNT", a},
+			[]string{"INCRBY", "s", a}, []string{"DECRBY", "n", a}, []string{"EXPIRE", "s", a}, []string{"EXPIREAT", "s", a}, []string{"SETEX", "e", a, "v"}, []string{"SET", "e", "v", "PX", a})
+	}
 	repeatItems := append([]reqItem{}, cat...)
 	for _, a := range extraRepeat {
 		repeatItems = append(repeatItems, mkItem(a[0]+"|repeat-extra "+strings.Join(a[1:], " "), "valid", bulkElems(a)))
